@@ -322,6 +322,48 @@ func (c20) Run(c *core.Ctx) {
 		hd = 3
 	}
 	gen(nil, hd)
+	// the same models under every load option that changes which loader stages run: each rendering once
+	optSets := []struct {
+		name string
+		fn   func(*loader.Options)
+	}{
+		{"SkipResolveEnvironment", func(o *loader.Options) { o.SkipResolveEnvironment = true }},
+		{"SkipNormalization", func(o *loader.Options) { o.SkipNormalization = true }},
+		{"SkipConsistencyCheck", func(o *loader.Options) { o.SkipConsistencyCheck = true }},
+		{"NoResolvePaths", func(o *loader.Options) { o.ResolvePaths = false }},
+		{"SkipDefaultValues", func(o *loader.Options) { o.SkipDefaultValues = true }},
+		{"SkipValidation", func(o *loader.Options) { o.SkipValidation = true }},
+		{"all-skips", func(o *loader.Options) {
+			o.SkipResolveEnvironment, o.SkipNormalization, o.SkipConsistencyCheck, o.SkipDefaultValues, o.SkipValidation = true, true, true, true, true
+			o.ResolvePaths = false
+		}},
+	}
+	for _, m := range models {
+		for _, os := range optSets {
+			if c.Expired() {
+				return
+			}
+			m, os := m, os
+			c.Do(m.id+"/opt/"+os.name, func() core.Outcome {
+				s := m.scn()
+				s.Opts = []func(*loader.Options){os.fn}
+				root := s.Materialise()
+				p, err := s.LoadAt(root)
+				sample := map[string]any{"model": m.id, "files": s.Files, "load_option": os.name}
+				if err != nil {
+					return core.Outcome{Class: "load-failed", Trivial: true}
+				}
+				for _, r := range c20renders {
+					lastRaw = nil
+					if v := c20checkRender(m, snapshotOf(p), r, "loaded with "+os.name); v != nil {
+						v.Key += ":" + os.name
+						return core.Outcome{Class: "viol", Sample: sample, Viol: v}
+					}
+				}
+				return core.Outcome{Class: m.id + "/" + os.name, Sample: sample}
+			})
+		}
+	}
 	for _, m := range models {
 		if c.Expired() {
 			return
